@@ -130,6 +130,12 @@ class Structure:
         return None
 
     def check(self, taps: List[List[Loc]]) -> Optional[str]:
+        try:
+            return self._check(taps)
+        except (KeyError, IndexError, TypeError) as exc:
+            return f"a result node's location does not exist in the document ({type(exc).__name__}: {exc})"
+
+    def _check(self, taps: List[List[Loc]]) -> Optional[str]:
         if len(taps) != len(self.q["segs"]) + 1:
             return "tap count does not match the number of segments"
         for si, seg in enumerate(self.q["segs"]):
